@@ -557,7 +557,8 @@ def judge(line, impl_out, check_image=True):
         d = split_step(got)
         if d["base"].startswith("ok:some:LOSSY") and want["res"].startswith("ok:some:"):
             # the library decoded bytes that are not Shift-JIS text (read_c_string into raw data): only the state is compared
-            d["base"] = want["res"] + d["base"][len("ok:some:LOSSY"):]
+            # (only the value token is replaced: a stream read carries ` pos:<n>` behind it on both sides)
+            d["base"] = want["res"].split(" ", 1)[0] + d["base"][len("ok:some:LOSSY"):]
         if d["base"] != want["res"] + want["st"]:
             return "step %d: reference says %r, implementation %r" % (i, (want["res"] + want["st"])[:300], d["base"][:300])
         if want["rc"] is not None and d["ser"] is not None:
